@@ -2,6 +2,7 @@ import Invoke.Model.RunnerIO
 import Invoke.Model.Decode
 import Invoke.Model.Encode
 import Invoke.Model.Terminal
+import Invoke.Model.Rejoin
 import Driver.Util
 open Inv Drv
 
@@ -65,20 +66,27 @@ def step' (line : String) : String :=
   | ["W", chunks] => encChars (utf8.decodeWhole ((splitNE chunks ",").map decChunk).flatten)
   | [flags, outc, errc, ins, sched] =>
     match (match flags.splitOn "," with
-           | [hi, ht, w, p, eo, tty, ho, sf, rs, hdo, hde] => [hi, ht, w, p, eo, tty, ho, sf, rs, hdo, hde, "0"]
+           | [hi, ht, w, p, eo, tty, ho, sf, rs, hdo, hde] => [hi, ht, w, p, eo, tty, ho, sf, rs, hdo, hde, "0", "1"]
+           | [hi, ht, w, p, eo, tty, ho, sf, rs, hdo, hde, asy] => [hi, ht, w, p, eo, tty, ho, sf, rs, hdo, hde, asy, "1"]
            | l => l) with
-    | [hi, ht, w, p, eo, tty, ho, sf, rs, hdo, hde, asy] =>
+    | [hi, ht, w, p, eo, tty, ho, sf, rs, hdo, hde, asy, jn] =>
       let e : Bool := effEcho (if eo == "1" then some true else if eo == "2" then some false else none) (b p) (b tty)
       let s0 := S.init (b hi) (b ht) (b w) (b p) e ((splitNE outc ",").map decChunk) ((splitNE errc ",").map decChunk)
                   ((splitNE ins ",").map parseIn) (b ho) (b sf) (rs.toNat?.getD 1000) (b asy)
       let s0 : S := { s0 with hideOut := b hdo, hideErr := b hde }
-      let s := run s0 ((splitNE sched ",").filterMap parseEv)
+      -- `jn` joins of one promise: a main-thread token that finds the previous join over re-enters `_finish`
+      let rj := ((splitNE sched ",").filterMap parseEv).foldl (fun (acc : S × Nat × List String) ev =>
+        let (s, left, outs) := acc
+        if ev = .act .main && s.mainPc = .done && left > 0 && !s.startFails then (rejoin s, left - 1, outs ++ [showOutcome s.outcome])
+        else (evStep s ev, left, outs)) (s0, (jn.toNat?.getD 1) - 1, [])
+      let s := rj.1
       let alive := (if s.outPc = .read then "out," else "") ++ (if !s.pty && s.errPc = .read then "err," else "")
                    ++ (if s.hasStdin && s.inPc ≠ .done then "stdin," else "")
       "|".intercalate [(if s.mainPc = .done then showOutcome s.outcome else "pending"), hex s.capOut.flatten, hex s.capErr.flatten,
         textOf s.capOut s.outPc, textOf s.capErr s.errPc, hex s.childBytes, toString s.closeCount,
         toString s.kills, toString s.killsAfterReturn, hex s.echoed.flatten,
-        (if s.mainPc = .done then "done" else "notdone"), alive, textOf s.mirOut s.outPc, textOf s.mirErr s.errPc]
+        (if s.mainPc = .done then "done" else "notdone"), alive, textOf s.mirOut s.outPc, textOf s.mirErr s.errPc,
+        ";".intercalate rj.2.2]
     | _ => "bad-flags"
   | _ => "bad-op"
 
